@@ -11,6 +11,12 @@
 // notify) and answers requests with an empty ServiceResponse.  Every
 // Request/Notify/QuerySession/Kick is issued on the service's own goroutine (a
 // harness message handled in Receive) and observed after synctest.Wait().
+// A second service of the same construction whose run service has been stopped
+// issues the same calls (`ctx=stopped`: a refusal must reach the callback without
+// the scheduler).  `setdef` replaces the default route function
+// (route.SetDefaultRoute), `midview` slips a view update into the next call (while
+// its route function is parked), a real-time watchdog outside the bubble reports
+// an op that never returns as `blocked`.
 // Bypassed: actor `remote` transport, etcd provider (views are installed with
 // Cluster.UpdateClusterTopology), real target services.
 package c07
@@ -20,9 +26,11 @@ import (
 	"sort"
 	"strconv"
 	"strings"
+	"sync/atomic"
 	"syscall"
 	"testing"
 	"testing/synctest"
+	"time"
 
 	"cell2verif/hx"
 
@@ -44,6 +52,7 @@ type env struct {
 	sys  *actor.ActorSystem
 	self *actor.PID
 	svc  *reqSvc
+	late *reqSvc // a service that is shutting down: spawned and started like svc, then its run service was stopped
 	sent []string
 	cbs  []string
 }
@@ -97,8 +106,48 @@ func newEnv() *env {
 		panic(err)
 	}
 	e.self = pid
+	// the stopping service: same construction, then what Service.onStop does (runService.Stop()).  Its actor
+	// context stays usable (late responses / timers issue follow-up requests during shutdown).
+	props2, _ := as.NewServicePropsWithNewScheDisp(func() actor.Actor {
+		e.late = &reqSvc{NodeService: nservice.NewService()}
+		return e.late
+	}, "c07late")
+	if _, err := e.sys.Root.SpawnNamed(props2, "c07late"); err != nil {
+		panic(err)
+	}
+	synctest.Wait()
+	e.late.GetRunService().Stop()
 	synctest.Wait()
 	return e
+}
+
+// onStopped runs f on behalf of the stopping service (its loop no longer runs, so the caller is whoever
+// still holds the service: here the harness goroutine) and waits for quiescence.
+func (e *env) onStopped(f func()) (panicked bool) {
+	e.sent, e.cbs = e.sent[:0], e.cbs[:0]
+	func() {
+		defer func() {
+			if r := recover(); r != nil {
+				panicked = true
+			}
+		}()
+		f()
+	}()
+	synctest.Wait()
+	return
+}
+
+// call issues f from the running service (its own goroutine) or from the stopping one.
+func (e *env) call(stopped bool, f func(ns *nservice.NodeService)) string {
+	if stopped {
+		p := e.onStopped(func() { f(e.late.NodeService) })
+		if !p && len(e.sent) > 0 {
+			// the reply goes to a service whose loop no longer runs: completion of a SENT request is C01/C09
+			return "sent=" + strings.Join(e.sent, ",") + " cb=~"
+		}
+		return e.outcome(p)
+	}
+	return e.outcome(e.onService(func() { f(e.svc.NodeService) }))
 }
 
 // onService runs f on the service's own goroutine and waits for quiescence.
@@ -377,7 +426,17 @@ type harness struct {
 	lastView []*cluster.Member
 }
 
+// exec interprets one op.  A view armed by `midview` is consumed by the NEXT op (installed while that op's
+// route function is parked, if it has one that gets that far) and dropped otherwise.
 func (x *harness) exec(op string) string {
+	obs := x.exec0(op)
+	if !strings.HasPrefix(op, "midview") {
+		parkHook = nil
+	}
+	return obs
+}
+
+func (x *harness) exec0(op string) string {
 	ws := hx.Words(op)
 	if len(ws) == 0 {
 		return "bad-op"
@@ -404,6 +463,18 @@ func (x *harness) exec(op string) string {
 			app.Node.GetCluster().UpdateClusterTopology(ms)
 			return dumpView(ms)
 		})
+	case "midview":
+		// the view update of the etcd watcher landing in the middle of the next call: after Route has called the
+		// route function, before the name it returns is looked up
+		ms := parseMembers(ws)
+		parkHook = func() { app.Node.GetCluster().UpdateClusterTopology(ms) }
+		return "ok"
+	case "setdef":
+		// route.SetDefaultRoute with ANOTHER default function (beh=none: nil); app.defaultRoute cannot be
+		// re-installed from outside the package, so the generator emits this only once the default is gone
+		route.SetDefaultRoute(mkFunc(kv("beh")))
+		x.defGone = true
+		return "ok"
 	case "rule":
 		t := kv("type")
 		route.GetRouteService().Register(t, mkFunc(kv("beh")))
@@ -448,7 +519,7 @@ func (x *harness) exec(op string) string {
 			cb = x.e.cb("req")
 		}
 		p := parseParam(ws)
-		return x.e.outcome(x.e.onService(func() { app.Request(x.e.svc.NodeService, kv("r"), p, x.testMsg, cb) }))
+		return x.e.call(kv("ctx") == "stopped", func(ns *nservice.NodeService) { app.Request(ns, kv("r"), p, x.testMsg, cb) })
 	case "ntf":
 		p := parseParam(ws)
 		return x.e.outcome(x.e.onService(func() { app.Notify(x.e.svc.NodeService, kv("r"), p, x.testMsg) }))
@@ -458,13 +529,13 @@ func (x *harness) exec(op string) string {
 			cb = x.e.cb(ws[0])
 		}
 		sid := uint32(hx.KVInt(ws, "sid"))
-		return x.e.outcome(x.e.onService(func() {
+		return x.e.call(kv("ctx") == "stopped", func(ns *nservice.NodeService) {
 			if ws[0] == "qs" {
-				app.QuerySession(x.e.svc.NodeService, kv("front"), sid, cb)
+				app.QuerySession(ns, kv("front"), sid, cb)
 			} else {
-				app.Kick(x.e.svc.NodeService, kv("front"), sid, cb)
+				app.Kick(ns, kv("front"), sid, cb)
 			}
-		}))
+		})
 	}
 	return "bad-op"
 }
@@ -733,6 +804,72 @@ func (g *gen) ruleOp() string {
 	return "rule type=" + t + " beh=" + beh
 }
 
+// midviewOp arms a fresh view for the next call.  Only views in which no name occurs under two types (the
+// winner among those depends on Go's map order and cannot be observed in the middle of a call).
+func (g *gen) midviewOp() string {
+	cur, names, types := g.cur, g.names, g.types
+	defer func() { g.cur, g.names, g.types = cur, names, types }()
+	for try := 0; try < 6; try++ {
+		v := g.viewOp()
+		byName, ok := map[string]string{}, true
+		for i, n := range g.names {
+			if t, seen := byName[n]; seen && t != g.types[i] {
+				ok = false
+				break
+			}
+			byName[n] = g.types[i]
+		}
+		if ok {
+			return "mid" + v
+		}
+	}
+	return "midview"
+}
+
+// straddleOps: a view update that lands inside the next call's route function, then that call
+func (g *gen) straddleOps() []string {
+	h := g.h
+	h.Count("op.midview")
+	p := g.param()
+	if h.R.Intn(2) == 0 {
+		p = "p=map:" + g.kvs()
+	}
+	var call string
+	switch h.R.Intn(5) {
+	case 0:
+		call = "pid type=" + g.typ() + " " + p
+	case 1:
+		call = "route type=" + g.typ() + " " + p
+	case 2:
+		call = "ntf r=" + g.routeStr() + " " + p
+	default:
+		call = "req r=" + g.routeStr() + " " + p
+	}
+	return []string{g.midviewOp(), call, "getpid name=" + g.name()}
+}
+
+// setdefOp replaces the default route function (only once app.defaultRoute is gone)
+func (g *gen) setdefOp() string {
+	h := g.h
+	var beh string
+	switch h.R.Intn(8) {
+	case 0, 1:
+		beh = "panic"
+	case 2:
+		beh = "const:" + g.name()
+	case 3, 4:
+		beh = "key:" + g.pick(keys)
+	case 5:
+		beh = "empty"
+	case 6:
+		beh = "keyd:" + g.pick(keys) + "," + g.name()
+	default:
+		beh = "none"
+	}
+	h.Count("setdef." + strings.SplitN(beh, ":", 2)[0])
+	return "setdef beh=" + beh
+}
+
 func (g *gen) routeStr() string {
 	h := g.h
 	api := g.pick([]string{"remote", "handler", "sys", "r"}) + "." + g.pick([]string{"say", "enter", "kick", "m"})
@@ -762,6 +899,10 @@ func (g *gen) callOp() string {
 	nocb := ""
 	if h.R.Intn(10) == 0 {
 		nocb = " nocb=1"
+	}
+	if h.R.Intn(8) == 0 { // issued by the service that is shutting down (req / qs / kick only)
+		nocb += " ctx=stopped"
+		h.Count("op.ctx-stopped")
 	}
 	switch h.R.Intn(20) {
 	case 0, 1:
@@ -818,17 +959,33 @@ var gridParams = []string{"nil", "tnil", "sess:", "sess:chatid~sc1", "sess:chati
 	"sess:chatid~n", "sess:chatid~s", "str:c1", "str:", "str:c9", "str:x", "str:no_service",
 	"other:int", "other:smap", "other:slice", "other:ptr"}
 var gridRoutes = []string{"chat.remote.say", "gate.handler.enter", "nosuch.r.m", ".r.m", "bad", "a.b.c.d", "", "..", "chat.remote"}
+var gridMidViews = []string{"view", "view m=c@n2|h2|2|1|+chat.c1+chat.c2", "view m=c@n1|h1|1|1|+chat.c2 m=c@n3|h3|3|2|+gate.c1"}
+var gridStoppedParams = []string{"nil", "sess:chatid~sc1", "map:chatid~sc9", "map:chatid~i0", "str:c1", "str:c9", "other:int"}
+var gridDefaults = []string{"panic", "const:c1", "key:chatid", "empty", "keyd:chatid,c2"}
 var gridFronts = []string{"c1", "g1", "x", "c9", "", "no_service", "chat.c1"}
 
 // grid enumerates view x rule x parameter x route x call kind; returns the number of ops.
-func grid(run func(string), def int, rules []string) int {
+func grid(run func(string), def int, rules []string, setdef string) int {
 	n := 0
 	do := func(op string) { run(op); n++ }
 	for _, v := range gridViews {
 		for _, rl := range rules {
 			do(fmt.Sprintf("reset default=%d", def))
+			if setdef != "" {
+				do("setdef beh=" + setdef)
+			}
 			do(v)
 			do("rule type=chat beh=" + rl)
+			// the same calls issued by the service that is shutting down
+			for _, r := range gridRoutes[:4] {
+				for _, p := range gridStoppedParams {
+					do("req r=" + r + " p=" + p + " ctx=stopped")
+				}
+			}
+			for _, f := range gridFronts[:4] {
+				do("qs front=" + f + " sid=1 ctx=stopped")
+				do("kick front=" + f + " sid=2 ctx=stopped")
+			}
 			for _, r := range gridRoutes {
 				for _, p := range gridParams {
 					do("req r=" + r + " p=" + p)
@@ -851,12 +1008,56 @@ func grid(run func(string), def int, rules []string) int {
 				do("kick front=" + f + " sid=2 nocb=1")
 				do("getpid name=" + f)
 			}
+			// a view update landing inside the call's route function (then the grid's view again)
+			for _, mv := range gridMidViews {
+				for _, p := range []string{"map:chatid~sc1", "sess:chatid~sc2", "nil", "str:c1"} {
+					do("mid" + mv)
+					do("req r=chat.remote.say p=" + p)
+					do("getpid name=c1")
+					do(v)
+					do("mid" + mv)
+					do("pid type=chat p=" + p)
+					do(v)
+				}
+			}
 		}
 	}
 	return n
 }
 
+// Real-time watchdog (started OUTSIDE the bubble, so its clock is the wall clock): a call that blocks on
+// a mutex is not "durably blocked" for synctest - the bubble would hang until the test timeout.  When one op
+// stays in flight for watchdogLimit, the trace is closed with the observation `blocked` for that op.
+var (
+	wdSeq   atomic.Int64
+	wdOp    atomic.Pointer[string]
+	wdTrace atomic.Pointer[hx.T]
+)
+
+const watchdogLimit = 20 * time.Second
+
+func watchdog() {
+	last, since := int64(-1), time.Now()
+	for {
+		time.Sleep(250 * time.Millisecond)
+		s := wdSeq.Load()
+		if s != last {
+			last, since = s, time.Now()
+			continue
+		}
+		op, h := wdOp.Load(), wdTrace.Load()
+		if op == nil || h == nil || time.Since(since) < watchdogLimit {
+			continue
+		}
+		h.Count("watchdog.blocked")
+		h.Emit(*op, "blocked")
+		h.Close()
+		syscall.Exit(0)
+	}
+}
+
 func TestRun(t *testing.T) {
+	go watchdog()
 	synctest.Test(t, func(t *testing.T) {
 		for _, n := range []string{"default", "exception"} {
 			if p := proxy.GetLogs().GetLog(n); p != nil {
@@ -865,8 +1066,12 @@ func TestRun(t *testing.T) {
 		}
 		h := hx.Open()
 		x := &harness{e: newEnv(), rules: map[string]bool{}, testMsg: &messages.TestHello{I: 7}}
+		wdTrace.Store(h)
 		run := func(op string) {
+			wdOp.Store(&op)
+			wdSeq.Add(1)
 			obs := x.exec(op)
+			wdOp.Store(nil)
 			if len(obs) > 4 && obs[:5] == "sent=" {
 				if strings.Contains(obs, "sent=-") {
 					h.Count("outcome.not-sent")
@@ -891,7 +1096,7 @@ func TestRun(t *testing.T) {
 			h.Count("corpus")
 			run(op)
 		}
-		h.Stats["exhaustive.grid.default1"] = grid(run, 1, gridRules)
+		h.Stats["exhaustive.grid.default1"] = grid(run, 1, gridRules, "")
 		g := &gen{h: h}
 		n := hx.EnvInt("VERIF_N", 4000)
 		cases := n / 12
@@ -903,10 +1108,19 @@ func TestRun(t *testing.T) {
 			h.Count(fmt.Sprintf("case.default%d", def))
 			run(fmt.Sprintf("reset default=%d", def))
 			g.ruled = nil
+			if def == 0 && h.R.Intn(2) == 0 {
+				run(g.setdefOp())
+			}
 			run(g.viewOp())
 			steps := 6 + h.R.Intn(10)
 			for i := 0; i < steps; i++ {
 				switch r := h.R.Intn(12); {
+				case r == 1 && def == 0 && h.R.Intn(3) == 0:
+					run(g.setdefOp())
+				case r == 3 && h.R.Intn(3) == 0:
+					for _, op := range g.straddleOps() {
+						run(op)
+					}
 				case r == 0:
 					h.Count("op.view-update")
 					if h.R.Intn(2) == 0 {
@@ -923,7 +1137,10 @@ func TestRun(t *testing.T) {
 				}
 			}
 		}
-		h.Stats["exhaustive.grid.default0"] = grid(run, 0, gridRules[:2])
+		h.Stats["exhaustive.grid.default0"] = grid(run, 0, gridRules[:2], "")
+		for _, d := range gridDefaults { // a REPLACED default route function, type chat without / with its own function
+			h.Stats["exhaustive.grid.setdef."+strings.SplitN(d, ":", 2)[0]] = grid(run, 0, []string{"none", "const:c2"}, d)
+		}
 		// hand-written cases without the default route function, last (it cannot be restored)
 		for _, op := range hx.CorpusOps(hx.Env("VERIF_CORPUS", "corpus/C07") + "/tail") {
 			h.Count("corpus.tail")
